@@ -129,6 +129,8 @@ func workerMain(prop, tier string, worker int, baseSeed uint64, out string) int 
 	t0 := time.Now()
 	states, grams := map[string]bool{}, map[string]bool{}
 	seenKeys := map[string]bool{}
+	known := loadKnown()
+	unknownReplays := 0
 	exit := 0
 	for i := 0; i < tc.RunsPerW; i++ {
 		seed := NewRng(baseSeed ^ uint64(worker)*0x9e3779b97f4a7c15).Derive(uint64(i)).U64()
@@ -155,8 +157,15 @@ func workerMain(prop, tier string, worker int, baseSeed uint64, out string) int 
 				rep.Foreign[v.Prop+"/"+v.Rule]++
 				continue
 			}
-			if seenKeys[v.Key()] || len(rep.Replays) >= tc.MaxReplays {
+			if seenKeys[v.Key()] {
 				continue
+			}
+			// open known findings are replayed once per worker and do not use up the budget for new violations
+			if matchKnown(known, v.Prop, v.Rule, v.FP) == nil {
+				if unknownReplays >= tc.MaxReplays {
+					continue
+				}
+				unknownReplays++
 			}
 			seenKeys[v.Key()] = true
 			rf := minimise(prof, res, v, time.Duration(tc.ShrinkSec)*time.Second)
@@ -313,9 +322,15 @@ func minimise(prof *Profile, res *RunResult, v Violation, budget time.Duration) 
 	deadline := time.Now().Add(budget)
 	cur := append([]Op(nil), res.Trace...)
 	trials := 0
+	judge := func(t []Op) *RunResult {
+		if prof.TraceCheck != nil {
+			return prof.TraceCheck(prof, t)
+		}
+		return runReplay(prof, t, false)
+	}
 	test := func(t []Op) bool {
 		trials++
-		r := runReplay(prof, t, false)
+		r := judge(t)
 		return r.HarnessErr == "" && hasKey(r.Viol, key) != nil
 	}
 	// the recorded trace itself must reproduce (determinism of replay); otherwise report unshrunk
@@ -361,7 +376,7 @@ func minimise(prof *Profile, res *RunResult, v Violation, budget time.Duration) 
 			}
 		}
 	}
-	final := runReplay(prof, cur, false)
+	final := judge(cur)
 	rf.Trace, rf.MinOps, rf.ShrinkTrial, rf.ShrinkDone = cur, len(cur), trials, converged
 	rf.EventLog, rf.AllViol = tail(final.Log, 80), final.Viol
 	if vv := hasKey(final.Viol, key); vv != nil {
@@ -391,6 +406,8 @@ func replayMain(path string, verbose bool) int {
 			return 2
 		}
 		res = prof.SpecialReplay(prof, &rf)
+	} else if prof.TraceCheck != nil {
+		res = prof.TraceCheck(prof, rf.Trace)
 	} else {
 		res = runReplay(prof, rf.Trace, verbose)
 	}
